@@ -14,6 +14,8 @@ pub struct Model {
     pub n_locals: usize,
     pub uses_switch: bool,
     pub labels: usize,
+    /// length of the shortest difficulty switch in the body (0 = none)
+    pub min_switch_len: usize,
 }
 
 pub struct G<'a, 'c> {
@@ -180,6 +182,7 @@ impl<'a, 'c> G<'a, 'c> {
         self.model.uses_switch = true;
         // number of cases 2..4, holes allowed except first
         let n = 2 + self.ch.pick(3);
+        self.model.min_switch_len = if self.model.min_switch_len == 0 { n } else { self.model.min_switch_len.min(n) };
         let mut parts = vec![];
         for i in 0..n {
             if i > 0 && self.ch.pick(2) == 1 { parts.push(String::new()); continue; }
